@@ -487,7 +487,32 @@ func init() {
 					m = catMesh(mn)
 				}
 				uvm := model3d.BuildAutomaticUVMap(m, 256, false)
-				return atlasProblem(m, uvm, true)
+				if p := atlasProblem(m, uvm, true); p != "ok" {
+					return p
+				}
+				// the same atlas seen through the image conventions a texture may use: V flipped (rows counted from the
+				// top), U flipped, axes swapped. Every UV triangle then has the other winding (or the same, for both
+				// flips), the charts are as disjoint as before, and the inverse lookup must still return the point with
+				// the same barycentric position
+				for _, fm := range []struct {
+					name string
+					f    func(model2d.Coord) model2d.Coord
+				}{
+					{"v -> 1-v", func(c model2d.Coord) model2d.Coord { return model2d.XY(c.X, 1-c.Y) }},
+					{"u -> 1-u", func(c model2d.Coord) model2d.Coord { return model2d.XY(1-c.X, c.Y) }},
+					{"u <-> v", func(c model2d.Coord) model2d.Coord { return model2d.XY(c.Y, c.X) }},
+					{"both axes flipped", func(c model2d.Coord) model2d.Coord { return model2d.XY(1-c.X, 1-c.Y) }},
+				} {
+					name, f := fm.name, fm.f
+					fl := model3d.MeshUVMap{}
+					for t, uv := range uvm {
+						fl[t] = [3]model2d.Coord{f(uv[0]), f(uv[1]), f(uv[2])}
+					}
+					if p := atlasProblem(m, fl, true); p != "ok" {
+						return p + " [atlas with " + name + "]"
+					}
+				}
+				return "ok"
 			}})
 	}
 	register(scenario{name: "atlas:PackMeshUVMaps/hand-made-charts", procs: 1, prop: "C18", about: "packing of separate charts and lookups in the gutters",
